@@ -30,11 +30,11 @@ Counter f_move_keep("fault.obj.move_source_kept_alive");
 Counter p_move_assign("probe.parser_move_assigned");
 Counter p_vector_overload("probe.parse_through_vector_overload");
 
-const char* const NAMES[6] = { "a", "b", "ab", "x", "long-name", "" }; // the last one: a "short-only" option
+const char* const NAMES[7] = { "a", "b", "ab", "x", "long-name", "", "long_name" }; // index 5: a "short-only" option
 const char* const LETTERS[7] = { "a", "b", "x", "", "ab", "A", "1" };
 const char* const GROUPS[3] = { nullptr, "g1", "arguments" }; // the second named group is titled like the default group
 const char* const ENVS[3] = { "NITRO_SIM_E0", "NITRO_SIM_E1", "NITRO_SIM_E2" };
-const char* const VALUES[6] = { "v1", "v2", "7", "x=y", "two words", "" };
+const char* const VALUES[6] = { "v1", "2.5", "7", "x=y", "two words", "" };
 
 enum Kind
 {
@@ -189,7 +189,7 @@ struct GroupCache
 DeclResult apply_declare(no::parser& p, const Op& op, GroupCache* cache = nullptr)
 {
     DeclResult r;
-    int kind = static_cast<int>(op.a[0] % 3), group = static_cast<int>(op.a[1] % 3), name = static_cast<int>(op.a[2] % 6);
+    int kind = static_cast<int>(op.a[0] % 3), group = static_cast<int>(op.a[1] % 3), name = static_cast<int>(op.a[2] % 7);
     int mod = static_cast<int>(op.a[3] % M_N), arg = static_cast<int>(op.a[4]);
     bool in_modifier = false;
     r.cat = guarded([&] {
@@ -277,7 +277,12 @@ std::string observe(const no::arguments& args, const DeclModel& m)
             {
                 try
                 {
-                    o << "[" << args.get(nm) << "]";
+                    const std::string& text = args.get(nm);
+                    o << "[" << text << "]";
+                    // typed access, for values that start with a number (for anything else the
+                    // conversion result is not defined by the library)
+                    if (!text.empty() && isdigit(static_cast<unsigned char>(text[0])))
+                        o << "=" << args.as<int>(nm);
                 }
                 catch (std::exception&)
                 {
@@ -316,7 +321,27 @@ struct ParseResult
 ParseResult do_parse(no::parser& p, const std::vector<std::string>& toks, const DeclModel& m, bool window, bool via_vector = false)
 {
     ParseResult r;
-    std::vector<const char*> argv;
+    // the argument array lives at one fixed address (a caller re-using its buffer for the next
+    // command line is perfectly normal)
+    static const char* argv_storage[64];
+    struct ArgvView
+    {
+        const char** p;
+        size_t n = 0;
+        void push_back(const char* s)
+        {
+            if (n < 64)
+                p[n++] = s;
+        }
+        size_t size() const
+        {
+            return n;
+        }
+        const char* const* data() const
+        {
+            return p;
+        }
+    } argv{ argv_storage };
     argv.push_back("prog");
     for (auto& t : toks)
         argv.push_back(t.c_str());
@@ -439,7 +464,7 @@ struct Exec
         {
         case K_DECLARE:
         {
-            int kind = static_cast<int>(op.a[0] % 3), group = static_cast<int>(op.a[1] % 3), name = static_cast<int>(op.a[2] % 6);
+            int kind = static_cast<int>(op.a[0] % 3), group = static_cast<int>(op.a[1] % 3), name = static_cast<int>(op.a[2] % 7);
             int mod = static_cast<int>(op.a[3] % M_N), arg = static_cast<int>(op.a[4]);
             int idx = m.find(name);
             bool conflict = idx >= 0 && (m.opts[static_cast<size_t>(idx)].kind != kind || m.opts[static_cast<size_t>(idx)].group != group);
@@ -904,7 +929,7 @@ public:
         auto declare = [&]() {
             Op op;
             op.kind = K_DECLARE;
-            int name = rng.chance(1, 14) ? 5 : static_cast<int>(rng.below(5));
+            int name = rng.chance(1, 14) ? 5 : rng.chance(1, 8) ? 6 : static_cast<int>(rng.below(5));
             int idx = m.find(name);
             int kind, group;
             if (idx >= 0 && !rng.chance(1, c13 ? 3 : 8))
